@@ -537,3 +537,8 @@ MUTANTS += [
                 if(!hash_update(zck, &(zck->check_chunk_hash), buf, rb))
                     return 0;""", 'expect': 'R6.read-hashed validate_checksums'},
 ]
+
+
+# SESSION7b additions to the claim (round 8, DESIGN 12.6)
+CLAIM['technique'] += '; whole-data gate on the scan verdict'
+CLAIM['text'] += ' C09-j: every positive exit of the scan lies on the >= 1 edge of validate_file() or is the detached-header / uncompressed-source case.'
